@@ -16,7 +16,7 @@ struct EncScenario : Scenario {
         for (size_t i = 0; i < ncoord; i++) f.push_back(strf("plusq:%zu", i));
         for (int m : std::vector<int>{FL_COMPRESSED, FL_INFINITY, FL_GREATER, FL_COMPRESSED | FL_INFINITY, FL_INFINITY | FL_GREATER}) { f.push_back(strf("flagset:%d", m)); f.push_back(strf("flagclr:%d", m)); }
         for (size_t i = 1; i < ncoord; i++) for (int m : std::vector<int>{0x80, 0x40, 0x20, 0xE0}) f.push_back(strf("cflag:%zu:%d", i, m));
-        if (!compressed) { f.push_back(strf("flip:%zu:0", n - 1)); f.push_back(strf("flip:%zu:0", n / 2 - 1)); f.push_back("negy"); }
+        if (!compressed) { f.push_back(strf("flip:%zu:0", n - 1)); f.push_back(strf("flip:%zu:0", n / 2 - 1)); f.push_back("negy"); f.push_back("isocurve:2"); f.push_back(strf("isocurve:%d", 3 + (int) r.below(1000))); }
         f.push_back("wrongsub:" + rhex(r, 8)); f.push_back("wrongsub:" + rhex(r, 8));
         if (compressed) { f.push_back("xnoy:" + rhex(r, 8)); f.push_back("xnoy:" + rhex(r, 8)); }
         for (int v = 0; v < 5; v++) f.push_back(strf("badinf:%d", v));
@@ -186,6 +186,7 @@ struct EncScenario : Scenario {
                             MPoint m = mpoint_of_affine(R, g, a);
                             if (!m.inf && !comp) { size_t half = m.xy.size() / 2; for (size_t i = 0; i < half; i += 48) { Bn y = Bn::from_be(&m.xy[half + i], 48); if (!y.is_zero()) y = Bn::sub(K().q, y); y.to_be(&b[half + i], 48); } fired = true; }
                         }
+                        else if (kind == "isocurve") { if (!comp) fired = iso_scale_uncompressed(b, (uint64_t) atoll(arg.c_str())); }
                         else if (kind == "wrongsub") { Buf pa(c.asz()); std::vector<uint8_t> xb; if (curve_point_from_seed(c, arg, false, pa, xb)) { b = model_encode(mpoint_of_affine(R, g, pa), comp); fired = true; } }
                         else if (kind == "xnoy") { Buf pa(c.asz()); std::vector<uint8_t> xb; if (comp && curve_point_from_seed(c, arg, true, pa, xb)) { b = xb; b[0] |= FL_COMPRESSED; if (strhash(arg.c_str()) & 1) b[0] |= FL_GREATER; fired = true; } }
                         else if (kind == "badinf") {
